@@ -711,3 +711,17 @@ def rule_minmax(text):
         a, b, new = hit
         apps.append(_app("R-min", text, a, b, new, "definition of Ord::min on u64"))
         text = text[:a] + new + text[b:]
+
+
+def rule_for_ref(text):
+    """`for &X in E {` over a slice -> `for i_ in 0..E.len() { let X = E[i_];`"""
+    apps = []
+    while True:
+        m = mask(text)
+        mm = re.search(r"for\s+&\s*(\w+)\s+in\s+(\w+)\s*\{", m)
+        if not mm:
+            return text, apps
+        x, e = mm.group(1), mm.group(2)
+        new = "for i_ in 0..%s.len() { let %s = %s[i_];" % (e, x, e)
+        apps.append(_app("R-for", text, mm.start(), mm.end(), new, "definition of iterating a slice by reference pattern"))
+        text = text[:mm.start()] + new + text[mm.end():]
